@@ -176,6 +176,7 @@ def run(repo, rep, tier):
     # membership, not `name in d.keys()`)
     from .c09 import _r13_names_compared_caselessly
     _r13_names_compared_caselessly(repo, rep, 'C08.R14')
+    _r15_keywords_usable_as_names(repo, rep)
     from .c09 import per_compile_state_rule
     per_compile_state_rule(repo, rep, rep.rule(
         'C08.R12', 'the compiler leaves the embedded-object mode (and other '
@@ -892,6 +893,73 @@ def _r8_symbols_consumed(repo, rep, rid='C08.R8', exempt=None):
     if r8.sites < 150:
         raise AnalysisError('C08.R8: only %d value-carrying symbols'
                             % r8.sites)
+
+
+def _r15_keywords_usable_as_names(repo, rep):
+    """C08.R15: tomof() writes element names as they are, and the lexer
+    turns every word listed in `reserved` into its keyword token.  A name
+    spelled like a keyword (a property called Scope, Flavor, ToInstance ...)
+    therefore recompiles only if the `identifier` rule lists that token as
+    an alternative - directly, or through a non-terminal whose alternatives
+    are single tokens (dataType).  The lexer table and the grammar rule are
+    two lists that must agree; the words that stay reserved are the ones
+    the grammar cannot tell from a value or a structural keyword in name
+    position, frozen here with their reason."""
+    r15 = rep.rule('C08.R15', 'every keyword token of the lexer is accepted '
+                   'as an element name by the identifier rule')
+    STAY_RESERVED = {
+        'TRUE': 'boolean literal', 'FALSE': 'boolean literal',
+        'NULL': 'null literal',
+        'REF': 'follows a class name in a reference declaration',
+        'ASSOCIATION': 'qualifier name / scope keyword with its own '
+                       'alternative in qualifierName',
+        'INDICATION': 'qualifier name / scope keyword with its own '
+                      'alternative in qualifierName',
+    }
+    mof = repo.module(MOF)
+    res = mof.consts.get('reserved')
+    if not isinstance(res, ast.Dict):
+        raise AnalysisError('_mof_compiler.reserved (lexer keyword table) '
+                            'not found')
+    toks = [v.value for v in res.values if isinstance(v, ast.Constant)]
+    prods = grammar_productions(mof)
+    by_lhs = {}
+    for n, (lhs, alts, f) in prods.items():
+        by_lhs.setdefault(lhs, []).extend(alts)
+    if 'identifier' not in by_lhs:
+        raise AnalysisError('grammar rule `identifier` not found')
+    accepted, todo, seen = set(), ['identifier'], set()
+    while todo:
+        nt = todo.pop()
+        if nt in seen:
+            continue
+        seen.add(nt)
+        for alt in by_lhs.get(nt, ()):
+            if len(alt) != 1:
+                continue
+            if alt[0] in by_lhs:
+                todo.append(alt[0])
+            else:
+                accepted.add(alt[0])
+    f = prods[[n for n, v in prods.items() if v[0] == 'identifier'][0]][2]
+    r15.functions.add(f.fq)
+    for t in toks:
+        r15.sites += 1
+        ok = t in accepted or t in STAY_RESERVED
+        r15.ob(ok, 'token:' + t, {'token': t, 'as_identifier': t in accepted,
+                                  'reserved_because': STAY_RESERVED.get(t)})
+        if not ok:
+            rep.finding(r15, f.name, 'identifier : ... | %s' % t,
+                        'keyword-not-a-name', MOF, f.node.lineno,
+                        'the lexer makes the word %r the token %s, and the '
+                        'identifier rule does not list it: an element named '
+                        'like that is written by tomof() as it is and the '
+                        'MOF does not compile (grammar error)'
+                        % ([k.value for k, v in zip(res.keys, res.values)
+                            if isinstance(v, ast.Constant) and
+                            v.value == t][0], t))
+    if len(toks) < 30:
+        raise AnalysisError('C08.R15: only %d keyword tokens' % len(toks))
 
 
 def _r9_array_braces(repo, rep):
